@@ -5,17 +5,20 @@ transport_from_client_path, _pre_open_hook / setup_jail), breezy/bzr/smart/vfs.p
 (VfsRequest.translate_client_path), breezy/bzr/smart/server.py
 (BzrServerFactory._make_backing_transport, _expand_userdirs) composed with the
 external dromedary pieces (urlutils.joinpath/escape/unescape, PathFiltering /
-Chroot transports, LocalTransport), which are specified in Model/C31.lean and
-compared per case.
+Chroot transports — reached by clone AND built from a URL —, LocalTransport),
+which are specified in Model/C31.lean and compared per case.
 
-World: a scratch directory W with the served directory W/root (files, a real
-branch at root/a, literal '~', '~user', 'é', '%2E%2E' … names) and, OUTSIDE of
-it, a canary file, directories named like the tokens, a home directory and (in
-world A) a branch at W itself.  World B has the same inside and a different
-outside.  Three servers (root client paths "/", "/srv/", "a") are built with
-the real BzrServerFactory._make_backing_transport (chroot + userdir filter,
-real os.path.expanduser for "/", table expanders for the others) over a
-tracing local transport.
+World: a scratch directory W with the served directory W/root (files whose content is
+their own relpath, a real branch at root/a, literal '~', '~user', 'é', '%2E%2E', '..%2Fevil',
+'a b', 'ab' … names) and, OUTSIDE of it, marker files, directories named like the tokens, a
+home directory and (in world A) branches at W, W/a, W/evil.  World B has the same inside
+and a different outside.  Servers (root client paths "/", "/srv/", "a"; a chroot-only
+configuration; five user tables with non-canonical home directories) are built with the
+real BzrServerFactory._make_backing_transport (chroot + userdir filter; the real
+os.path.expanduser with pwd.getpwnam pinned for "/", table expanders for the others)
+over a tracing local transport.  A byte-identical copy of each world is kept; an inotify
+watch on every directory (control directories included; stat fingerprints as a fallback)
+tells after EVERY verb what changed, and it is put back from the copy.
 
 T2 (model vs code, per (root client path, client path)):
   tr    SmartServerRequest.translate_client_path       result / error kind
@@ -27,7 +30,14 @@ T2 (model vs code, per (root client path, client path)):
   loc   what the chroot/userdir stack hands to the local transport (traced) and
         what a read through it returns, against the model's backing relpath /
         OS path / resolved location (the expected content is read by the
-        harness from the model's OS path)
+        harness from the model's OS path); through every clone with SEVERAL canonical
+        relpaths (f, .bzr/branch-format, a%20b, %25, a/f, x/%C3%A9, a%20b/%25), not only "f"
+  jurl  a transport built from a URL <prefix>p (all strings of <= 2 tokens over 17 tokens,
+        a hand-picked list, random longer ones; two configurations): its .base, what the real
+        _pre_open_hook says for four jail roots (backing transport, a, a/a, a%20b), the relpath
+        a read hands to the local transport and what it returns — against urlBase /
+        jailAllows / urlBackingRel / urlLocate; and the model's own statement
+        "normal form => inside" on every case
   jp/esc/unesc  the dromedary functions on their own
   xu    _expand_userdirs;  jail  _pre_open_hook
   corpus/C31/*.json (pinned past failures) run first, through the stack and every verb class;
@@ -39,24 +49,36 @@ T2 (model vs code, per (root client path, client path)):
   {/ . .. %2F %2E %2e%2e ~ ~user a é %00} (exhaustive), a random stream of
   longer strings over a wider alphabet, and ~10 % non-UTF-8 byte strings
   (compared on accept/reject + error kind only).
-Oracle (independent of the model), for every verb class dispatched through the
-real SmartServerRequestHandler (VFS has/get/stat/list_dir/put/mkdir/append,
-BzrDir.open_2.1, BzrDir.open_branchV3, BzrDir.find_repositoryV3,
-Branch.last_revision_info, Branch.get_config_file, Repository.is_shared,
-BzrDirFormat.initialize) and for a sample through a real socket medium pair:
+Oracle (independent of the model), through the real SmartServerRequestHandler in BOTH worlds:
+  * CORE_VERBS (every vfs.*Request class except move: has get stat list_dir iter_files_recursive
+    readv put mkdir append put_non_atomic rename delete rmdir; BzrDir.open_2.1 / open_branchV3 /
+    find_repositoryV3 / get_branches, Branch.last_revision_info / get_config_file,
+    Repository.is_shared, BzrDirFormat.initialize) for every generated client path, and EVERY entry
+    of request.request_handlers that takes a client path (enumerated from the registry by the
+    parameter names of do() and of the helper its *args goes to: 91 verbs; hello and
+    Transport.is_readonly have no path and are listed as skipped in the evidence) for a hostile
+    set + samples — the hostile path in EVERY client-path position (rename / move: source, target,
+    both); a sample also through a real socket medium pair;
   * non-interference: the response in world A equals the response in world B
-    (nothing outside the served directory was read);
-  * the outside of the world is byte-identical after every writing verb and
-    every created/changed entry lies inside W/root;
+    (nothing outside the served directory was read; lock tokens, temp names, addresses masked);
+  * after every verb the outside of both worlds is what it was (existence, kind, content, mode of
+    every entry an inotify event names);  a name that came and went (the temporary file of an atomic
+    put on the served directory itself, which LocalTransport creates NEXT TO its target) is counted,
+    not reported;
   * no response contains an outside marker;
+  * a read through a transport built from a URL that the real jail hook admits returns a file
+    below the jail root (every inside file carries its relpath);
   * a BzrDir opened during a request at a location outside the jail fails
     (a request class that opens a given URL is dispatched through the real
     handler, so setup_jail / the pre_open hook are the real ones).
 
 Findings: the VFS breakout ('..%2Fcanary', '%%32E%%32E/canary') found by this check was
 fixed by `fix:` commit 3cca92d; it has no family any more and is a plain VIOLATION if it
-returns.  The jail-url-* families (external dromedary chroot defects, see `_family`) are
-committed known findings.
+returns.  The jail-url-* families (external dromedary chroot defects, see `_family`; kernel-checked
+as jail_unnormalised_*_witness) are committed known findings.  NEW (pending triage):
+userdir-home-encoded-dotdot — a home directory whose NAME carries a percent-escape that decodes
+to '..' (server-side configuration) lets '~/...' leave the served directory
+(userdir_percent_home_witness; _expand_userdirs does not escape the expanded OS path).
 
 Mutants this was built against (scratch worktrees; all semantic ones caught):
   M1 translate_client_path without the joinpath normalisation      -> T2 (10140 mismatches; the chroot
@@ -72,7 +94,19 @@ Mutants this was built against (scratch worktrees; all semantic ones caught):
   M7 setup_jail installs no jail                                   -> oracle: outside control directory opened
   S1 (seeded) VfsRequest falls back to unescape-last when unescape() refuses raw non-ASCII
      -> oracle: 'é/../..%2Fcanary' reads / writes outside (directed stream + corpus)
+  M8 RenameRequest does not translate rel_to                       -> oracle: rename with '/é/../..%2Fsecret' as
+     rel_to created 'secret' OUTSIDE (plain VIOLATION)
+  M9 DeleteRequest uses the untranslated path                      -> oracle: delete '/é/../..%2Fcanary' removed
+     'canary' OUTSIDE (plain VIOLATION)
+  M10 _pre_open_hook: startswith(base.rstrip('/')), no '/' boundary -> oracle: jail rooted at 'a' admits 'ab/' and
+     'a%20b%2F', the read returns 'I:a b/f' (plain VIOLATION) + 196 T2 mismatches
+  M13 BzrDir.create_repository (registry sweep only) clones the untranslated path
+                                                                   -> oracle: response depends on the outside for
+     '..%2Fevil' (plain VIOLATION)
+  M15 MoveRequest (registry sweep only) does not translate rel_from -> oracle: move '..%2Fcanary' removed 'canary'
+     OUTSIDE (plain VIOLATION)
   H1 slicing rewritten with str.removeprefix (harmless)            -> clean (same result as the unchanged tree)
+  H2 RenameRequest translates rel_to first, DeleteRequest inlined (harmless) -> clean
   with the proposed fix applied (unescape first) the vfs-* families disappear and T2 selects model variant fx.
 """
 import contextlib
@@ -96,17 +130,30 @@ THEOREMS = [
     "chroot_double_decode_witness", "userdir_inside_or_untouched",
     "userdir_filter_canon", "expanduser_canon", "jail_rejects_outside",
     "jail_segment_boundary",
+    # home directories that are not canonical escaped strings
+    "userdir_filter_mild", "userdir_locate_inside", "translate_userdir_inside", "userdir_percent_home_witness",
+    "userdir_untouched_without_tilde", "userdir_fixed_canon", "userdir_fixed_locate_inside",
+    # from the URL the jail admits to the location that is opened
+    "jail_default_allows_all", "jail_url_inside_served", "jail_allows_inside",
+    "jail_unnormalised_encoded_slash_witness", "jail_unnormalised_double_encoded_witness",
+    "jail_unnormalised_dotdot_witness", "jail_invalid_utf8_sibling_witness",
 ]
 RULE = ("case = (root client path, client path bytes); client paths are all strings of <= N tokens over the "
         "11-token alphabet of the property (enumerated completely, deduplicated as byte strings), plus random "
         "longer strings over a 33-token alphabet and ~10% non-UTF-8 strings; each case is run through the "
-        "translate functions, the clone, a traced read through the real chroot/userdir stack and (for the verb "
-        "subset) every verb class in two worlds; non-trivial = the path contains '..', '%', '~', a NUL, a "
-        "non-ASCII byte or a doubled/leading '/'")
+        "translate functions, the clone, traced reads (several canonical relpaths) through the real chroot/userdir "
+        "stack and (for the verb subset) every core verb / every registered verb, the path in every client-path "
+        "argument position, in two worlds; jail cases = (URL path built from 17 tokens, jail root, relpath); "
+        "non-trivial = the path contains '..', '%', '~', a NUL, a non-ASCII byte or a doubled/leading '/'")
 ASSUMPTIONS = [
     "directories inside the served directory are real directories (no symlinks pointing outside): out of scope of the statement",
     "root_client_path=None (no translation at all) is not part of the property",
     "the operating system resolves '..' lexically for existing directories; NUL is refused by the OS layer",
+    "home directories (password database / userdir_expander) are server-side configuration, not client input: "
+    "containment is proved for every home directory in which each '%' starts an upper-case escape of a byte outside "
+    "A-Za-z0-9-._~/ (in particular every home without '%'); other home directory names are a reported finding family",
+    "the jail root of every real request is the backing transport itself (SmartServerRequestHandler jail_root=None); "
+    "sub-directory jail roots are covered by jail_allows_inside under its stated hypotheses",
 ]
 TRUSTED = [
     "dromedary (joinpath/escape/unescape, PathFiltering/Chroot/Local transports, Transport.relpath) is compiled Rust: "
@@ -475,6 +522,28 @@ def make_server(w, rcp, kind=None, table=None):
     return s
 
 
+USERDIR_FX = [False]       # does the tree have the proposed fix of _expand_userdirs (unescape / expand / escape)?
+
+
+def probe_userdir_fx():
+    from breezy.bzr.smart import server as S
+    seen = []
+    f = S.BzrServerFactory(userdir_expander=lambda q: (seen.append(q) or q), get_base_path=lambda t: "/")
+    f.base_path = "/"
+    try:
+        f._expand_userdirs("~%41")
+    except Exception:
+        return None
+    return True if seen == ["~A"] else False if seen == ["~%41"] else None
+
+
+def base_hex(s):
+    """the base path field of the driver protocol (`!` = proposed-fix variant of _expand_userdirs)"""
+    if s.base is None:
+        return "~"
+    return ("!" if USERDIR_FX[0] else "") + hexb(s.base.encode())
+
+
 def tbl_hex(s):
     return ",".join("%s:%s" % (hexb(k.encode()), hexb(v.encode())) for k, v in sorted(s.table.items())) or "-"
 
@@ -675,7 +744,7 @@ def t2_paths(ctx, s, cps, fx, deep=True, all_rels=False):
     w = s.world
     rcp_h = hexb(s.rcp.encode())
     root_h = hexb(w.root.encode())
-    base_h = hexb(s.base.encode()) if s.base is not None else "~"
+    base_h = base_hex(s)
     tbl = tbl_hex(s)
     cases, lines, outs = [], [], []
     post = []        # (case, kind, model line index, extra) checks that need the model's reply
@@ -779,8 +848,8 @@ def t2_paths(ctx, s, cps, fx, deep=True, all_rels=False):
         else:
             exp = mm["os"]
         cpb = bytes.fromhex(c["cp"])
-        if (bk is None and b"\x00" in cpb and out.startswith(("OSError", "EXC:ValueError"))
-                and exp.startswith("E:")):
+        if (bk is None and (b"\x00" in cpb or (USERDIR_FX[0] and b"%00" in cpb))
+                and out.startswith(("OSError", "EXC:ValueError")) and exp.startswith("E:")):
             # pwd.getpwnam inside the real os.path.expanduser refuses a NUL in the user name: a rejection
             # before anything reaches the local transport; the model rejects the same path later (NUL / non-ASCII)
             ctx.count("read:refused-by-expanduser")
@@ -1126,14 +1195,22 @@ def t2_userdirs(ctx, servers, cps):
                 st = cp.decode("utf-8")
             except UnicodeDecodeError:
                 continue
-            if "\x00" in st:
+            if "\x00" in st or (USERDIR_FX[0] and "%00" in st):
+                continue        # pwd.getpwnam refuses a NUL in the user name (ValueError): no expansion to compare
+            try:
+                r = s.factory._expand_userdirs(st)
+            except Exception as e:       # compared with the model as such
+                cases.append(dict(op="xu", rcp=s.rcp, p=cp.hex()))
+                lines.append("xu %s %s %s" % (base_hex(s), tbl_hex(s), hexb(cp)))
+                outs.append("EXC:" + type(e).__name__)
                 continue
-            r = s.factory._expand_userdirs(st)
             # oracle: untouched, or the remainder of something under the base path
             if r != st:
-                e = s.factory.userdir_expander(st)
+                from breezy import urlutils
+                e = s.factory.userdir_expander(urlutils.unescape(st) if USERDIR_FX[0] else st)
                 e = e if e.endswith("/") else e + "/"
-                if not (e.startswith(s.base) and e[len(s.base):] == r):
+                below = e[len(s.base):]
+                if not (e.startswith(s.base) and (urlutils.escape(below) if USERDIR_FX[0] else below) == r):
                     ctx.violation(dict(op="xu", rcp=s.rcp, p=cp.hex()),
                                   "_expand_userdirs(%r) = %r is neither the path itself nor the part of the expanded "
                                   "path below the base path" % (st, r))
@@ -1141,7 +1218,7 @@ def t2_userdirs(ctx, servers, cps):
             else:
                 ctx.count("xu:untouched")
             cases.append(dict(op="xu", rcp=s.rcp, p=cp.hex()))
-            lines.append("xu %s %s %s" % (hexb(s.base.encode()), tbl_hex(s), hexb(cp)))
+            lines.append("xu %s %s %s" % (base_hex(s), tbl_hex(s), hexb(cp)))
             outs.append(hexb(r.encode("utf-8")))
     ctx.diff(cases, lines, outs)
 
@@ -1188,7 +1265,7 @@ def jail_url_cases(ctx, s, urls):
     from urllib.parse import unquote_to_bytes
     w, P, bt = s.world, s.prefix, s.bt
     root_h = hexb(w.root.encode())
-    base_h = hexb(s.base.encode()) if s.base is not None else "~"
+    base_h = base_hex(s)
     tbl, pfx_h = tbl_hex(s), hexb(P.encode())
     roots = [(j, bt.clone(j) if j else bt) for j in JAIL_ROOTS]
     cases, lines, outs, post = [], [], [], []
@@ -1414,6 +1491,12 @@ def run(ctx, n_exh=None, n_deep=None, n_verbs=None):
     if any(v is not True for v in fxs.values()):
         ctx.mismatch(dict(op="probe"), "VfsRequest.translate_client_path variants: %r" % ({str(k): v for k, v in fxs.items()},),
                      "unescape-first (fixed) everywhere")
+    ufx = probe_userdir_fx()
+    USERDIR_FX[0] = bool(ufx)
+    if ufx is None:
+        ctx.mismatch(dict(op="probe-userdirs"), "unrecognised _expand_userdirs variant", "as found, or unescape/expand/escape")
+    ctx.extra["expand_userdirs_variant"] = {True: "unescape-expand-escape (proposed fix)", False: "as found (expander sees the escaped path, "
+                                            "remainder not escaped)", None: "unrecognised"}[ufx]
     ctx.extra["vfs_translate_variant"] = ("unescape-first (fixed)" if all(v is True for v in fxs.values())
                                           else "NOT the fixed variant: %r" % (sorted(set(map(str, fxs.values()))),))
     n_exh = n_exh or ctx.pick(4, 5)       # translate functions only
@@ -1527,8 +1610,11 @@ def replay(ctx, case):
     rcp = case.get("rcp", "/")
     sa_, sb_ = make_server(wa, rcp, case.get("cfg")), make_server(wb, rcp, case.get("cfg"))
     fx = True
+    USERDIR_FX[0] = bool(probe_userdir_fx())
     out = dict(case=case)
-    if case.get("op", "").startswith("jail"):
+    if case.get("op") == "jail-url":
+        jail_url_cases(ctx, sa_, [case["url"]])
+    elif case.get("op", "").startswith("jail"):
         jail_cases(ctx, sa_, sb_)
     else:
         cp = bytes.fromhex(case["cp"])
